@@ -8,6 +8,7 @@ use std::sync::atomic::AtomicU64;
 use std::sync::atomic::Ordering;
 use std::time::Duration;
 
+use d_engine_core::RaftLog;
 use serde_json::Value;
 use serde_json::json;
 
@@ -37,6 +38,8 @@ pub struct Plan {
     pub clients: u32,
     pub keys: u32,
     pub op_gap_ms: (u64, u64),
+    /// bursty clients: 3 of 4 gaps are drawn from `op_gap_ms`, 1 of 4 is a pause of 80..400 ms
+    pub bursty: bool,
     /// weights for client ops: put, del, cas, read_lin, read_lease, read_eventual
     pub mix: [u64; 6],
     /// weights for fault actions (see `Action`)
@@ -59,7 +62,33 @@ pub struct Plan {
     pub full_restart: bool,
     /// membership: number of learners to add during the run
     pub add_learners: u32,
+    /// scripted fault schedule (directed scenarios) instead of the random fault loop
+    pub script: Vec<Step>,
 }
+
+/// One step of a directed scenario. Node roles are resolved when the step runs.
+#[derive(Clone, Debug)]
+pub enum Step {
+    /// sleep (virtual ms) with checkpoints
+    Sleep(u64),
+    /// remember the current leader under a name (0..3)
+    MarkLeader(usize),
+    /// wait until a leader different from mark `usize` exists (up to ms), remember it as mark `usize2`
+    WaitOtherLeader(usize, usize, u64),
+    /// remember as mark `2` a live voter that is neither mark 0 nor mark 1
+    MarkThird(usize, usize, usize),
+    /// isolate the marked node from everybody else
+    Isolate(usize),
+    /// one-way isolation: nothing the marked node sends gets through, it still receives
+    IsolateOutbound(usize),
+    /// groups of marks; unmarked nodes go with the first group
+    Partition(Vec<Vec<usize>>),
+    Heal,
+    Crash(usize),
+    Restart(usize),
+    ApplyLag(usize, u64),
+}
+
 
 impl Plan {
     pub fn describe(&self) -> Value {
@@ -68,7 +97,7 @@ impl Plan {
             "voters": self.params.voters, "duration_ms": self.duration_ms, "clients": self.clients, "keys": self.keys,
             "election_ms": [self.params.election_min, self.params.election_max], "heartbeat_ms": self.params.heartbeat_ms,
             "lease_ms": self.params.lease_ms, "cap": self.params.per_request_cap, "snapshot_threshold": self.params.snapshot_threshold,
-            "tier_n": self.allow_tier_n, "add_learners": self.add_learners, "full_restart": self.full_restart,
+            "scripted": !self.script.is_empty(), "tier_n": self.allow_tier_n, "add_learners": self.add_learners, "full_restart": self.full_restart,
         })
     }
 }
@@ -88,6 +117,7 @@ pub fn base_plan(family: &str, seed: u64) -> Plan {
         clients: r.range(2, 4) as u32,
         keys: r.range(2, 4) as u32,
         op_gap_ms: (1, 40),
+        bursty: false,
         mix: [50, 8, 20, 15, 0, 0],
         w_isolate_leader: 10,
         w_partition_minority: 10,
@@ -107,6 +137,7 @@ pub fn base_plan(family: &str, seed: u64) -> Plan {
         client_timeout_ms: 2500,
         full_restart: false,
         add_learners: 0,
+        script: Vec::new(),
     }
 }
 
@@ -177,7 +208,9 @@ pub fn plan_for(family: &str, seed: u64) -> Plan {
             pl.mix = [30, 5, 10, 25, 20, 10];
             pl.read_paths = vec!["cmd", "embedded", "actor"];
             pl.clients = r.range(4, 8) as u32;
-            pl.op_gap_ms = (0, 20);
+            pl.op_gap_ms = (0, 10);
+            pl.bursty = true;
+            pl.keys = r.range(3, 6) as u32;
             pl.w_isolate_leader = 30;
             pl.w_oneway = 25;
             pl.w_partition_minority = 10;
@@ -212,11 +245,44 @@ pub fn plan_for(family: &str, seed: u64) -> Plan {
             pl.w_restart = 18;
             pl.w_partition_minority = 20;
             pl.duration_ms = r.range(6000, 12000);
+            pl.quiet_ms = 15_000;
             pl.rocks = r.chance(1, 3);
+        }
+        // C05 directed chain: a deposed leader with an uncommitted tail rejoins while the new
+        // leader can reach nobody else, then the new leader crashes and the others elect.
+        "chain-deposed-leader-rejoin" => {
+            pl.params.voters = 3;
+            pl.params.per_request_cap = *r.pick(&[1, 2, 3, 5]);
+            pl.op_gap_ms = (0, 10);
+            pl.clients = r.range(3, 5) as u32;
+            pl.mix = [80, 5, 10, 5, 0, 0];
+            pl.duration_ms = 0;
+            let crash_new_leader = r.chance(2, 3);
+            pl.script = vec![
+                Step::Sleep(r.range(300, 900)),
+                Step::MarkLeader(0),
+                // one-way isolation lets the new leader open its stream to the deposed one and
+                // lose it before the first acknowledgement (next_index falls back to 1)
+                if r.chance(1, 2) { Step::IsolateOutbound(0) } else { Step::Isolate(0) },
+                Step::WaitOtherLeader(0, 1, 4000),
+                Step::Sleep(r.range(150, 700)),
+                Step::MarkThird(0, 1, 2),
+                Step::Partition(vec![vec![0, 1], vec![2]]),
+                Step::Sleep(r.range(400, 1600)),
+                if crash_new_leader { Step::Crash(1) } else { Step::Isolate(1) },
+                Step::Partition(vec![vec![0, 2], vec![1]]),
+                Step::Sleep(r.range(1500, 3000)),
+                Step::Restart(1),
+                Step::Heal,
+                Step::Sleep(r.range(300, 1000)),
+            ];
         }
         "liveness" => {
             pl.w_heal = 25;
+            pl.w_crash = 12;
+            pl.w_restart = 20;
             pl.quiet_ms = 30_000;
+            pl.rocks = r.chance(1, 4);
             pl.duration_ms = r.range(3000, 7000);
             if r.chance(1, 3) {
                 pl.params.snapshot_threshold = r.range(15, 40);
@@ -262,7 +328,8 @@ async fn client_loop(
     // last value this client believes a key holds (to build CAS chains that can succeed)
     let mut believed: BTreeMap<Vec<u8>, Option<Vec<u8>>> = BTreeMap::new();
     while !stop.load(Ordering::Relaxed) {
-        tokio::time::sleep(Duration::from_millis(r.range(plan.op_gap_ms.0, plan.op_gap_ms.1))).await;
+        let gap = if plan.bursty && r.chance(1, 4) { r.range(80, 400) } else { r.range(plan.op_gap_ms.0, plan.op_gap_ms.1) };
+        tokio::time::sleep(Duration::from_millis(gap)).await;
         if stop.load(Ordering::Relaxed) {
             break;
         }
@@ -328,9 +395,13 @@ async fn client_loop(
 }
 
 pub fn collect_logs<K: EngineKind>(c: &Cluster<K>) -> BTreeMap<u32, (u32, u64, u64, Vec<(u64, u64, u64)>)> {
+    collect_logs_tail(c, u64::MAX)
+}
+
+pub fn collect_logs_tail<K: EngineKind>(c: &Cluster<K>, tail: u64) -> BTreeMap<u32, (u32, u64, u64, Vec<(u64, u64, u64)>)> {
     let mut m = BTreeMap::new();
     for id in c.live_ids() {
-        if let Some((first, last, sigs)) = c.log_sigs(id) {
+        if let Some((first, last, sigs)) = c.log_sigs_tail(id, tail) {
             let inc = c.slots.get(&id).map(|s| s.inc).unwrap_or(0);
             m.insert(id, (inc, first, last, sigs));
         }
@@ -338,10 +409,28 @@ pub fn collect_logs<K: EngineKind>(c: &Cluster<K>) -> BTreeMap<u32, (u32, u64, u
     m
 }
 
+/// Every 8th checkpoint compares the whole logs; the others only the last 160 entries of every
+/// log (where appends, truncations and conflicts happen), which keeps a run's cost linear.
 pub fn checkpoint<K: EngineKind>(c: &Cluster<K>) {
-    let logs = collect_logs(c);
+    let nth = {
+        let mut on = c.rec.online();
+        on.checkpoints += 1;
+        on.checkpoints
+    };
+    let logs = if nth % 8 == 0 { collect_logs(c) } else { collect_logs_tail(c, 160) };
     let t = c.now();
-    c.rec.online().checkpoint(t, &logs);
+    let mut on = c.rec.online();
+    on.checkpoint(t, &logs);
+    // C33: purge boundary vs commit and vs the snapshot the node holds
+    for (id, (inc, first, _last, _)) in &logs {
+        if *first > 1
+            && let Some(n) = c.node(*id)
+        {
+            use d_engine_core::StateMachine;
+            let snap = n.sm.snapshot_metadata().and_then(|m| m.last_included).map(|l| l.index);
+            on.purge_check(t, *id, *inc, *first - 1, snap);
+        }
+    }
 }
 
 async fn sleep_with_checkpoints<K: EngineKind>(c: &Cluster<K>, ms: u64, hint: &Arc<AtomicU64>) {
@@ -363,6 +452,15 @@ pub async fn run_chaos<K: EngineKind>(plan: &Plan, scratch: &Path) -> RunOutcome
     if let Err(e) = c.bootstrap().await {
         out.inconclusive = Some(format!("bootstrap failed: {e:?}"));
         return out;
+    }
+    {
+        // C30 bound: worst-case vote round (the candidate's loop is blocked while it collects
+        // votes) + the request deadline + two tick intervals, all from this run's configuration
+        let vote_round = 4 * 100 + 20 + 40 + 80;
+        let bound = vote_round + plan.params.general_timeout_ms + 2 * plan.params.heartbeat_ms + 100;
+        if plan.client_timeout_ms >= bound {
+            c.rec.online().reply_bound_ms = Some(bound);
+        }
     }
     let hint = Arc::new(AtomicU64::new(0));
     if c.wait_leader(8000).await.is_none() {
@@ -402,7 +500,91 @@ pub async fn run_chaos<K: EngineKind>(plan: &Plan, scratch: &Path) -> RunOutcome
         plan.w_none,
     ];
     let wsum: u64 = weights.iter().sum();
-    while c.now() < end {
+    // ---- directed scenario ----
+    if !plan.script.is_empty() {
+        let mut marks: [Option<u32>; 4] = [None; 4];
+        for step in &plan.script {
+            match step {
+                Step::Sleep(ms) => sleep_with_checkpoints(&c, *ms, &hint).await,
+                Step::MarkLeader(m) => {
+                    marks[*m] = c.wait_leader(3000).await;
+                }
+                Step::WaitOtherLeader(not, m, max_ms) => {
+                    let until = c.now() + *max_ms;
+                    loop {
+                        let l = c.leaders().into_iter().filter(|(i, _)| Some(*i) != marks[*not]).max_by_key(|(_, t)| *t).map(|(i, _)| i);
+                        if l.is_some() || c.now() >= until {
+                            marks[*m] = l;
+                            break;
+                        }
+                        sleep_with_checkpoints(&c, 20, &hint).await;
+                    }
+                }
+                Step::MarkThird(a, b, m) => {
+                    marks[*m] = all_ids.iter().cloned().find(|i| Some(*i) != marks[*a] && Some(*i) != marks[*b]);
+                }
+                Step::Isolate(m) => {
+                    if let Some(n) = marks[*m] {
+                        let rest: Vec<u32> = all_ids.iter().cloned().filter(|i| *i != n).collect();
+                        c.rec.push(c.now(), Ev::Fault { desc: format!("isolate {n}") });
+                        partition(&c.net, &[vec![n], rest]);
+                    }
+                }
+                Step::IsolateOutbound(m) => {
+                    if let Some(n) = marks[*m] {
+                        c.rec.push(c.now(), Ev::Fault { desc: format!("one-way isolation: nothing sent by {n} arrives") });
+                        c.net.set_faults(|f| {
+                            f.blocked.clear();
+                            for o in &all_ids {
+                                if *o != n {
+                                    f.blocked.insert((n, *o));
+                                }
+                            }
+                        });
+                    }
+                }
+                Step::Partition(groups) => {
+                    let mut gs: Vec<Vec<u32>> = groups.iter().map(|g| g.iter().filter_map(|m| marks[*m]).collect()).collect();
+                    let placed: Vec<u32> = gs.iter().flatten().cloned().collect();
+                    for i in &all_ids {
+                        if !placed.contains(i) {
+                            gs[0].push(*i);
+                        }
+                    }
+                    c.rec.push(c.now(), Ev::Fault { desc: format!("partition {gs:?}") });
+                    partition(&c.net, &gs);
+                }
+                Step::Heal => {
+                    c.rec.push(c.now(), Ev::Fault { desc: "heal".into() });
+                    heal(&c.net);
+                }
+                Step::Crash(m) => {
+                    if let Some(n) = marks[*m] {
+                        c.crash(n);
+                        c.refresh(&cl);
+                    }
+                }
+                Step::Restart(m) => {
+                    if let Some(n) = marks[*m]
+                        && c.node(n).is_none()
+                    {
+                        c.rec.push(c.now(), Ev::Fault { desc: format!("restart {n}") });
+                        if let Err(e) = c.start(n).await {
+                            out.extra.insert(format!("restart_{n}_error"), json!(format!("{e:?}")));
+                        }
+                        c.refresh(&cl);
+                    }
+                }
+                Step::ApplyLag(m, ms) => {
+                    if let Some(n) = marks[*m] {
+                        c.rec.push(c.now(), Ev::Fault { desc: format!("apply lag node {n} = {ms}ms") });
+                        c.set_apply_delay(n, *ms);
+                    }
+                }
+            }
+        }
+    }
+    while plan.script.is_empty() && c.now() < end {
         // membership growth early in the run
         if learners_left > 0 && r.chance(1, 3) && c.leader().is_some() {
             let id = next_learner;
@@ -594,13 +776,82 @@ pub async fn run_chaos<K: EngineKind>(plan: &Plan, scratch: &Path) -> RunOutcome
         }
     }
     out.extra.insert("final_reads".into(), json!(final_values));
+    // ---- bounded progress after heal (C32; C33's "replication keeps working across the purge
+    // boundary") ----
+    if plan.family == "liveness" || plan.family == "compaction" {
+        use d_engine_core::StateMachine;
+        let prop: &'static str = if plan.family == "liveness" { "C32" } else { "C33" };
+        let restart_failed = out.extra.keys().any(|k| k.starts_with("restart_"));
+        let voters: Vec<u32> = (1..=plan.params.voters).collect();
+        let up = voters.iter().filter(|v| c.node(**v).is_some()).count();
+        if up >= voters.len() / 2 + 1 {
+            match leader {
+                None => {
+                    let roles: Vec<_> = c.live_ids().iter().map(|i| json!([i, c.role_of(*i).map(|r| (r.role, r.term))])).collect();
+                    c.rec.online().report(c.now(), prop, "no-leader-after-heal-and-quiet-period", json!({"quiet_ms": plan.quiet_ms, "live": c.live_ids(), "roles": roles, "restart_failed": restart_failed}));
+                }
+                Some(l) => {
+                    let (_, res) = cl
+                        .write(998, l, ClientOp::Put { key: b"probe".to_vec(), value: format!("probe-{}", plan.seed).into_bytes(), ttl: None }, 3000)
+                        .await;
+                    out.counters.insert("probe_writes".into(), 1);
+                    if !matches!(res, ClientResult::WriteOk { .. }) {
+                        c.rec.online().report(c.now(), prop, "probe-write-not-accepted-after-heal-and-quiet-period", json!({"leader": l, "result": super::record::result_json(&res), "quiet_ms": plan.quiet_ms}));
+                    }
+                    let commit = c.rec.online().commit_index.get(&l).cloned().unwrap_or(0);
+                    c.sleep(1000).await;
+                    let mut behind = Vec::new();
+                    for v in c.live_ids() {
+                        let is_voter = c.rec.online().view.get(&l).is_some_and(|(vs, _)| vs.contains(&v));
+                        if !is_voter {
+                            continue;
+                        }
+                        if let Some(n) = c.node(v) {
+                            let la = n.sm.last_applied().index;
+                            if la < commit {
+                                behind.push(json!({"node": v, "last_applied": la, "log": [n.raft_log.first_entry_id(), n.raft_log.last_entry_id()]}));
+                            }
+                        }
+                    }
+                    out.counters.insert("progress_checks".into(), 1);
+                    if !behind.is_empty() {
+                        let sig = if prop == "C32" { "live-voter-behind-commit-index-after-heal-and-quiet-period" } else { "lagging-peer-not-caught-up-across-purge-boundary" };
+                        let lf = c.node(l).map(|n| n.raft_log.first_entry_id());
+                        c.rec.online().report(c.now(), prop, sig, json!({"leader": l, "leader_commit": commit, "leader_log_first": lf, "behind": behind, "quiet_ms": plan.quiet_ms}));
+                    }
+                }
+            }
+        }
+    }
+    // ---- quiescent state oracle (C06 / C15 / C16) ----
+    {
+        use d_engine_core::StateMachine;
+        let mut keys: Vec<Vec<u8>> = (0..plan.keys).map(key_of).collect();
+        keys.push(b"probe".to_vec());
+        for id in c.live_ids() {
+            if let Some(n) = c.node(id) {
+                let la = n.sm.last_applied().index;
+                let content: Vec<(Vec<u8>, Option<Vec<u8>>)> =
+                    keys.iter().map(|k| (k.clone(), n.sm.get(k).ok().flatten().map(|b| b.to_vec()))).collect();
+                let t = c.now();
+                c.rec.online().final_state_check(t, id, n.inc, la, &content);
+            }
+        }
+        let n = c.rec.online().final_state_checks;
+        out.counters.insert("final_state_checks".into(), n);
+    }
+    {
+        let iv: std::collections::BTreeSet<u32> = (1..=plan.params.voters).collect();
+        let t = c.now();
+        c.rec.online().finish_membership(t, leader, &iv);
+    }
     c.sleep(200).await;
     checkpoint(&c);
     let t = c.now();
     {
         let mut on = c.rec.online();
         on.finish(t);
-        let (mut hf, hs) = super::history::analyze(&on, 3_000_000);
+        let (mut hf, hs) = super::history::analyze(&on, 400_000);
         // classify linearizability findings: was the offending read served by a leader that had
         // no fresh quorum (the C12 condition) at that moment?
         for f in hf.iter_mut() {
@@ -660,11 +911,17 @@ pub async fn run_chaos<K: EngineKind>(plan: &Plan, scratch: &Path) -> RunOutcome
             ("indeterminate", k.indeterminate),
             ("notifications", k.notifications),
             ("step_downs", k.step_downs),
+            ("joins_ok", k.joins_ok),
+            ("joins_rejected", k.joins_rejected),
+            ("promotions", k.promotions),
+            ("view_pairs_checked", k.view_pairs_checked),
+            ("purge_checks", k.purge_checks),
+            ("client_timeouts", k.client_timeouts),
         ] {
             out.counters.insert(n.to_string(), v);
         }
     }
-    if !out.findings.is_empty() {
+    if !out.findings.is_empty() || std::env::var("DVERIF_KEEP_EVENTS").is_ok() {
         out.all_events = c.rec.snapshot();
     }
     c.shutdown_all().await;
